@@ -4,5 +4,6 @@ CONSTANTS MaxN = 9
           ChunkSz = 4
           MaxFiles = 3
           DeepN = {51, 64, 127, 260, 700, 1300}
+          DeepM = {1, 7, 200}
 INVARIANTS AllFilesOK AppendPreserves AppendEqualsFresh
 CHECK_DEADLOCK FALSE
